@@ -707,7 +707,7 @@ func c16Concurrent(r *R) {
 		case strings.HasPrefix(line, "S\t"):
 			var st struct {
 				Scenarios, Execs, Steps, Incomplete int
-				Samples                           []string
+				Samples                             []string
 			}
 			if json.Unmarshal([]byte(line[2:]), &st) == nil {
 				r.Set("concurrent_helper_call_pairs", st.Scenarios)
